@@ -154,7 +154,7 @@ structure QA where
   mcastNow : Dict
   mcastAgg : Dict
   mcastLast : Dict
-  deriving Repr, Inhabited
+  deriving Repr, Inhabited, DecidableEq
 
 def QR.answers (qr : QR) : QA :=
   let f := fun (s : List RecId) => s.map (fun r => (r, qr.additionals.get r))
